@@ -328,8 +328,10 @@ class ConfigSuite(Suite):
     def cases(self, rng, tier, prop):
         n = {"quick": 1, "thorough": 6}[tier]
         out = []
-        for _ in range(140 * n):
+        for i in range(140 * n):
             cfg = self._gen_valid(rng)
+            if i % 3:
+                cfg["build"] = ["ctor", "mutate", "setattr"][i % 3]
             out += self._both(cfg, "valid")
         for kind in INVALID:
             for _ in range(14 * n):
@@ -632,7 +634,26 @@ class ConfigSuite(Suite):
         from jade.extensions.generic_command import GenericCommandConfiguration, GenericCommandParameters
         from jade.models import HpcConfig, SubmissionGroup, SubmitterParams
         try:
-            jobs = [GenericCommandParameters(**kw) for kw in case["jobs"]]
+            style = case.get("build", "ctor")
+            jobs = []
+            for kw in case["jobs"]:
+                late = {}
+                if style != "ctor":
+                    # the in-place idiom jade's own tests and user scripts use: create the job, then set attributes /
+                    # mutate its blocked_by set (only for well-typed values, so that the outcome is the constructor's)
+                    kw = dict(kw)
+                    if isinstance(kw.get("blocked_by"), list) and all(isinstance(b, str) for b in kw["blocked_by"]):
+                        late["blocked_by"] = kw.pop("blocked_by")
+                    if style == "setattr":
+                        for k in ("cancel_on_blocking_job_failure", "estimated_run_minutes", "submission_group"):
+                            if k in kw and isinstance(kw[k], (bool, int, float, str)):
+                                late[k] = kw.pop(k)
+                j = GenericCommandParameters(**kw)
+                for b in late.pop("blocked_by", []):
+                    j.blocked_by.add(b)
+                for k, v in late.items():
+                    setattr(j, k, v)
+                jobs.append(j)
             groups = []
             for g in case["groups"]:
                 if g["hpc_type"] == "slurm":
